@@ -20,6 +20,9 @@ VARIABLE l
 tvars == <<slots, net, reg, taint, procs, gor, l>>
 
 D == Deviations
+\* deviations of the code's encoders recorded as open known findings: the wire
+\* conformance check (no verdict) follows the code as it is, the verdicts the ideal
+OpenWireDeviations == {"GrpcStatusSendsDescription"}
 
 \* print one mismatch; always TRUE
 \* `sites` names where / why: known findings are matched on it
@@ -193,7 +196,7 @@ ReportBuild(ev, new, tn) ==
      /\ IF tn.h \/ tn.dv THEN TRUE ELSE Chk(o.tree = TreeOf(v, reg), ev, "tree", "conf", {}, TreeOf(v, reg), o.tree)
      \* conformance of the encoders: the wire message of the value as Enc predicts it
      /\ IF tn.h \/ tn.dv THEN TRUE
-        ELSE LET w == WAbs(Enc(v, reg, D)) IN Chk(o.wire = w, ev, "wire", "conf", {}, w, o.wire)
+        ELSE LET w == WAbs(Enc(v, reg, D \cup OpenWireDeviations)) IN Chk(o.wire = w, ev, "wire", "conf", {}, w, o.wire)
      \* (values are predicted for regular strings; for hostile strings only the
      \* predicates of ReportOuts and the relations of ReportHop give verdicts)
      /\ IF tn.h \/ tn.dv THEN TRUE
